@@ -19,9 +19,10 @@ def flat(M): return [x for row in M for x in row]
 class Res:
     pass
 
-def run_la(op, A=None, B=None, s=0.0, i=0, j=0, C=None, D=None, shapeA=None, shapeB=None, intercept=None, pre=(), limits=None, vecA=False, vecB=False):
+def run_la(op, A=None, B=None, s=0.0, i=0, j=0, C=None, D=None, shapeA=None, shapeB=None, intercept=None, pre=(), limits=None, vecA=False, vecB=False, havoc=None):
     """A, B: lists of rows (matrices) or flat lists with vecA/vecB; returns (interp, list of Res)"""
     mod = G['m']; it = Interp(mod, intercept=intercept, limits=limits); st = it.new_state()
+    if havoc: it.havoc.update(havoc)
     st.pc += list(pre)
     def prep(M, shape, isvec):
         if M is None: return (0, 0, st.alloc(8)) if shape is None else (shape[0], shape[1], st.alloc(8))
